@@ -364,7 +364,7 @@ pub const fn relocation_type_from_raw(r_type: u32) -> Option<RelocationKindInfo>
             RelocationKind::Relative,
             RelocationSize::bit_mask_aarch64(0, 16, AArch64Instruction::Movnz),
             None,
-            AllowedRange::no_check(),
+            AllowedRange::from_bit_size(17, Sign::Signed),
             1,
         ),
         object::elf::R_AARCH64_MOVW_PREL_G0_NC => (
@@ -378,7 +378,7 @@ pub const fn relocation_type_from_raw(r_type: u32) -> Option<RelocationKindInfo>
             RelocationKind::Relative,
             RelocationSize::bit_mask_aarch64(16, 32, AArch64Instruction::Movnz),
             None,
-            AllowedRange::no_check(),
+            AllowedRange::from_bit_size(33, Sign::Signed),
             1,
         ),
         object::elf::R_AARCH64_MOVW_PREL_G1_NC => (
@@ -392,7 +392,7 @@ pub const fn relocation_type_from_raw(r_type: u32) -> Option<RelocationKindInfo>
             RelocationKind::Relative,
             RelocationSize::bit_mask_aarch64(32, 48, AArch64Instruction::Movnz),
             None,
-            AllowedRange::no_check(),
+            AllowedRange::from_bit_size(49, Sign::Signed),
             1,
         ),
         object::elf::R_AARCH64_MOVW_PREL_G2_NC => (
@@ -464,14 +464,14 @@ pub const fn relocation_type_from_raw(r_type: u32) -> Option<RelocationKindInfo>
         // GOT-relative data relocations
         object::elf::R_AARCH64_GOTREL64 => (
             RelocationKind::SymRelGotBase,
-            RelocationSize::ByteSize(4),
+            RelocationSize::ByteSize(8),
             None,
             AllowedRange::no_check(),
             1,
         ),
         object::elf::R_AARCH64_GOTREL32 => (
             RelocationKind::SymRelGotBase,
-            RelocationSize::ByteSize(8),
+            RelocationSize::ByteSize(4),
             None,
             AllowedRange::from_bit_size(32, Sign::Signed),
             1,
@@ -485,7 +485,7 @@ pub const fn relocation_type_from_raw(r_type: u32) -> Option<RelocationKindInfo>
         ),
         object::elf::R_AARCH64_GOT_LD_PREL19 => (
             RelocationKind::GotRelative,
-            RelocationSize::bit_mask_aarch64(2, 21, AArch64Instruction::LdSt),
+            RelocationSize::bit_mask_aarch64(2, 21, AArch64Instruction::Ldr),
             None,
             AllowedRange::from_bit_size(21, Sign::Signed),
             4,
@@ -543,7 +543,7 @@ pub const fn relocation_type_from_raw(r_type: u32) -> Option<RelocationKindInfo>
         ),
         object::elf::R_AARCH64_TLSGD_MOVW_G1 => (
             RelocationKind::TlsGdGotBase,
-            RelocationSize::bit_mask_aarch64(16, 33, AArch64Instruction::Movnz),
+            RelocationSize::bit_mask_aarch64(16, 32, AArch64Instruction::Movnz),
             None,
             AllowedRange::no_check(),
             1,
@@ -594,10 +594,10 @@ pub const fn relocation_type_from_raw(r_type: u32) -> Option<RelocationKindInfo>
         ),
         object::elf::R_AARCH64_TLSLD_LD_PREL19 => (
             RelocationKind::TlsLd,
-            RelocationSize::bit_mask_aarch64(0, 21, AArch64Instruction::Ldr),
+            RelocationSize::bit_mask_aarch64(2, 21, AArch64Instruction::Ldr),
             None,
             AllowedRange::from_bit_size(21, Sign::Signed),
-            1,
+            4,
         ),
         object::elf::R_AARCH64_TLSLD_MOVW_DTPREL_G2 => (
             RelocationKind::DtpOff,
@@ -769,14 +769,14 @@ pub const fn relocation_type_from_raw(r_type: u32) -> Option<RelocationKindInfo>
             RelocationKind::TpOff,
             RelocationSize::bit_mask_aarch64(32, 48, AArch64Instruction::Movnz),
             None,
-            AllowedRange::no_check(),
+            AllowedRange::from_bit_size(49, Sign::Signed),
             1,
         ),
         object::elf::R_AARCH64_TLSLE_MOVW_TPREL_G1 => (
             RelocationKind::TpOff,
             RelocationSize::bit_mask_aarch64(16, 32, AArch64Instruction::Movnz),
             None,
-            AllowedRange::no_check(),
+            AllowedRange::from_bit_size(33, Sign::Signed),
             1,
         ),
         object::elf::R_AARCH64_TLSLE_MOVW_TPREL_G1_NC => (
@@ -790,7 +790,7 @@ pub const fn relocation_type_from_raw(r_type: u32) -> Option<RelocationKindInfo>
             RelocationKind::TpOff,
             RelocationSize::bit_mask_aarch64(0, 16, AArch64Instruction::Movnz),
             None,
-            AllowedRange::no_check(),
+            AllowedRange::from_bit_size(17, Sign::Signed),
             1,
         ),
         object::elf::R_AARCH64_TLSLE_MOVW_TPREL_G0_NC => (
